@@ -13,6 +13,10 @@ Families
   live     the real GeminiClient against scripted loopback TLS servers (real time): faithful body,
            cap cut-off, prompt termination on close, timeout cut-off.
   liveoverlap  the same with two or three calls in flight on one client, each against its own scripted TLS connection.
+
+Every family that sees a response also applies `malformed_header_verdict`: a response (instead of an error) is acceptable only when the
+header line starts with exactly two ASCII digits followed by SPACE or the CRLF; the generators put white-space look-alikes (LF, CR,
+TAB, VT, FF, FS..US, NEL, NBSP, U+2028 ...: what int(), str.strip() and a regex "$" / "\\s" let pass) around and inside the digits.
 """
 from __future__ import annotations
 
@@ -326,7 +330,7 @@ MAX_BODY = 10 * 1024 * 1024      # only used to size the generated streams; the 
 MAX_HDR = 1027
 # characters that Python treats as removable white space somewhere (int(), str.strip / split / isspace, regex \s and the "$" that also
 # matches before a final LF) - none of them is the SPACE of the response grammar
-WS_LIKE = ["\n", "\n", "\r", "\t", "\x0b", "\x0c", "\x1c", "\x1d", "\x1e", "\x1f", "\x85", "\xa0", "\u2028", "\u2029", "\u3000", "\u200b", "\x00"]
+WS_LIKE = ["\n", "\n", "\n", "\n", "\r", "\t", "\x0b", "\x0c", "\x1c", "\x1d", "\x1e", "\x1f", "\x85", "\xa0", "\u2028", "\u2029", "\u3000", "\u200b", "\x00"]
 
 
 def gen_header(rng: random.Random):
@@ -421,7 +425,7 @@ class Proto(Family):
             return {"proto": proto or rng.choice(["g", "g", "t"]), "dt": dt, "stream": stream, "cls": cls, "cuts": cuts, "end": end, "end_at": end_at}
 
         # (1) small exhaustive: every segmentation x every end x every cut-off of a few short streams
-        shorts = [b"20 a\r\nhi", b"51\r\nx", b"20 \r\n\xff", b"2\r0 \r\n", b"31 u\r\n", b"9\r\n"]
+        shorts = [b"20 a\r\nhi", b"51\r\nx", b"20 \r\n\xff", b"2\r0 \r\n", b"31 u\r\n", b"9\r\n", b"51\n\r\nx", b"20\n a\r\nhi"]
         s0 = rng.choice(shorts)
         nb = len(s0)
         allsegs = list(range(1 << (nb - 1)))
